@@ -63,5 +63,6 @@ def validate_events(rep, pid, gen_args, what_key, heap="6g", max_violations=12):
         rep.extra["session_effects"] = info["session"]
     for idx in bad:
         e = events[idx - 1]
-        rep.violation(IMPURE if e.get("ev") == "impure" else WHAT[what_key], e, {"event_index": idx})
-    return info, [e for e in events if e.get("ev") != "impure"]
+        rep.violation(IMPURE if e.get("ev") == "impure" else ("a call did not return within 20 s" if e.get("ev") == "hang" else WHAT[what_key]),
+                      e, {"event_index": idx})
+    return info, [e for e in events if e.get("ev") not in ("impure", "hang")]
